@@ -1,15 +1,21 @@
 """C36 — the HTML report lists every reported finding.
 
-theorems   Cppcheck.Html.index_rows_perm (every finding exactly once in the index, any results file),
-           row_file, row_message_escaped, escape_no_markup, unescape_escape, css_no_markup
+theorems   Cppcheck.Html.* (Props/C36.lean): index_rows_perm (every finding exactly once in the index, any results file), row_file,
+           the columns of a row (row_id_cell, row_cwe_cell, row_line_cell, row_severity_cell, row_classification_cells,
+           row_message_cell + counterexamples), the per-file pages (page_entries, page_lists_every_finding,
+           page_exactly_once_counterexample / _partial, annot_shows_message, page_annotations_in_order + counterexamples),
+           injection freedom of every piece of output (row / fileRow / menu / annot _injection_free, dynamic_ok,
+           wellEscaped_no_markup), escape_no_markup, unescape_escape, css_no_markup
 C1         the real htmlreport/cppcheck-htmlreport is run on generated version-2 result files (+ source trees with
-           readable / missing / undecodable files); every finding row and file row of index.html and the menu of every
-           per-file page must equal, character for character, what the Lean model computes
+           readable / missing / undecodable files); every finding row and file row of index.html, the menu of every per-file
+           page and the annotation text behind every source line of every page must equal, character for character, what the
+           Lean model computes
 P_impl     independent of the model: index.html / N.html parsed with html.parser; the multiset of (file, line, id,
-           severity, message) recovered from the index equals the findings of the results file; per-file pages carry one
-           annotation per location that lies inside the file
+           severity, message) recovered from the index equals the findings of the results file; per-file pages carry one menu
+           entry and one annotation per finding; deviations of the known classes carry their finding key, everything else is a
+           violation
 """
-import os, re, sys, time, html, subprocess, shutil
+import os, re, sys, time, html, json, subprocess, shutil
 from html.parser import HTMLParser
 from xml.sax.saxutils import quoteattr
 from .. import core
@@ -17,14 +23,40 @@ from .. import core
 ID = "C36"
 LEVEL = "proof"
 RULE = ("one case = one results file (1..12 findings, 0..3 locations each, hostile characters in every field, files readable / "
-        "missing / undecodable / starred) + source tree; non-trivial = >= 2 findings and at least one field with an HTML special character")
-EXPLANATION = ("Lean: index rows are a permutation of the findings for every results file; escaping is lossless and markup-free. "
-               "Tie: character-exact comparison of the real script's index rows, file rows and page menus with the model. "
-               "Outside the model: pygments highlighting of the source text, statistics page, git blame columns, version-1 files.")
-THEOREMS = ["Cppcheck.Html.index_rows_perm", "Cppcheck.Html.row_file", "Cppcheck.Html.row_message_escaped",
+        "missing / undecodable / starred, lines 0..beyond the end of the source, inconclusive true/false, classifications, cwe, "
+        "location infos, verbose texts with \\012) + source tree; non-trivial = >= 2 findings and at least one field with an HTML special character")
+EXPLANATION = ("Lean (proved): INDEX - the rows are a permutation of the findings for every results file (no hypothesis on the sources); "
+               "each row sits under its file and carries the escaped id, cwe, message; the line when the source is decodable (not for "
+               "undecodable / starred files: finding F36c); the severity unless some finding of the file has a classification (then no "
+               "row shows a severity: finding F36b). PER-FILE PAGES - every finding with a location is listed on the page of its file, "
+               "once PER LOCATION in that file, not once per finding (finding F36a; exactly once when each finding has one location "
+               "there); each entry is annotated behind its source line with its escaped message, once and in order when the texts have no "
+               "newline of their own (finding F36e for \\012 in verbose), unless inconclusive is present and not 'true' (finding F36d) or "
+               "the line is not a line of the source. ESCAPING - every piece of every row, file row, menu and annotation is a fixed "
+               "template literal, the time stamp, or an html_escape'd / to_css_selector'ed / decimal value, and those contain no markup. "
+               "Tie: character-exact comparison of the real script's index rows, file rows, page menus and line annotations with the "
+               "model. Outside the model: pygments' highlighting of the source text itself, whether a page is generated (readability of "
+               "the source is an input of the model), statistics page, git blame columns, version-1 files, remote source dirs.")
+THEOREMS = ["Cppcheck.Html.index_rows_perm", "Cppcheck.Html.row_file",
+            "Cppcheck.Html.row_id_cell", "Cppcheck.Html.row_cwe_cell", "Cppcheck.Html.row_line_cell", "Cppcheck.Html.row_line_cell_nofile",
+            "Cppcheck.Html.row_line_undecodable_counterexample", "Cppcheck.Html.row_severity_cell", "Cppcheck.Html.row_classification_cells",
+            "Cppcheck.Html.row_severity_classification_counterexample", "Cppcheck.Html.row_cells_length", "Cppcheck.Html.row_message_cell",
+            "Cppcheck.Html.page_entries", "Cppcheck.Html.menu_entries_perm", "Cppcheck.Html.page_lists_every_finding",
+            "Cppcheck.Html.page_exactly_once_counterexample", "Cppcheck.Html.page_exactly_once_partial",
+            "Cppcheck.Html.annot_shows_message", "Cppcheck.Html.annot_missing_counterexample", "Cppcheck.Html.lineAnnot_single",
+            "Cppcheck.Html.lineAnnot_none", "Cppcheck.Html.page_annotations_in_order", "Cppcheck.Html.page_annotations_counterexample",
+            "Cppcheck.Html.row_injection_free", "Cppcheck.Html.fileRow_injection_free", "Cppcheck.Html.menu_injection_free",
+            "Cppcheck.Html.annot_injection_free", "Cppcheck.Html.dynamic_ok", "Cppcheck.Html.wellEscaped_no_markup",
             "Cppcheck.Html.escape_no_markup", "Cppcheck.Html.unescape_escape", "Cppcheck.Html.css_no_markup"]
 MODULES = ["Cppcheck.Props.C36"]
 SCRIPT = os.path.join(core.REPO, "htmlreport", "cppcheck-htmlreport")
+ASSUMPTIONS = [
+    "whether a per-file page exists (source readable and decodable) and the number of its source lines are inputs of the model",
+    "the highlighted source line itself (pygments) is a parameter of annotateLine; the tie compares the text from the first annotation "
+    "marker of a line to its last newline",
+    "the HTML parser used by P_impl (python html.parser) decodes the five entities html_escape emits like a browser does",
+]
+NLINES = 7
 
 ALPHA = list("abcXYZ019 _-./") + ["<", ">", "&", '"', "'", "é", "中", "{", "}", "%", "<b>", "</td>", "&lt;", "&amp;", "<script>", "*"]
 IDS = ["nullPointer", "arrayIndexOutOfBounds", "misra-c2012-10.4", "clang-tidy-foo", "9lives", "-x", "--y", "a<b>", 'q"r', "x&y", "unmatchedSuppression", "é"]
@@ -45,7 +77,8 @@ def gen_case(rng):
                  sev=rng.choice(SEVS[:6]) if rng.random() < 0.85 else rng.choice(SEVS),
                  msg=rstr(rng, 0, 14), verbose=None, inconclusive=None, cwe=None, cls="", guideline="", locs=[])
         if rng.random() < 0.6:
-            e["verbose"] = e["msg"] if rng.random() < 0.5 else rstr(rng, 0, 20)
+            k = rng.random()
+            e["verbose"] = e["msg"] if k < 0.45 else (rstr(rng, 0, 20) if k < 0.85 else rstr(rng, 1, 6) + "\\012" + rstr(rng, 0, 6))
         if rng.random() < 0.25:
             e["inconclusive"] = rng.choice(["true", "true", "false"])
         if rng.random() < 0.3:
@@ -53,9 +86,13 @@ def gen_case(rng):
         if use_cls and rng.random() < 0.7:
             e["cls"] = rng.choice(["Mandatory", "Required", "Advisory", "L1", "odd<"])
             e["guideline"] = rng.choice(["10.4", "Rule 1", ""])
-        for _ in range(rng.choice([0, 1, 1, 1, 2, 3])):
-            e["locs"].append(dict(file=rng.choice(FILES) if rng.random() < 0.9 else "", line=rng.choice([0, 1, 2, 3, 5, 7, 40]),
-                                  info=None if rng.random() < 0.6 else rstr(rng, 0, 8)))
+        for j in range(rng.choice([0, 1, 1, 1, 2, 3])):
+            f = rng.choice(FILES) if rng.random() < 0.9 else ""
+            if j > 0 and rng.random() < 0.45:
+                f = e["locs"][0]["file"]                    # a further location in the same file: a second entry on its page
+            k = rng.random()
+            e["locs"].append(dict(file=f, line=rng.choice([0, 1, 2, 3, 3, 5, 7, 40]),
+                                  info=None if k < 0.5 else ("" if k < 0.6 else rstr(rng, 0, 8))))
         errs.append(e)
     # twins: distinct findings sharing id / file / line (e.g. uninitvar for a and b on `return a + b;`, two
     # unmatchedSuppression at `*`:0, two location-less findings of one id) — each must still be listed on its own
@@ -107,7 +144,7 @@ def opt(s):
 
 
 def op_of(errs, ts, decode_files):
-    f = ["report", u8(ts), str(len(errs))]
+    f = ["report", u8(ts), str(NLINES), str(len(errs))]
     for e in errs:
         f += [u8(e["id"]), u8(e["sev"]), u8(e["msg"]), opt(e["verbose"]), opt(e["inconclusive"]), opt(e["cwe"]), u8(e["cls"]), u8(e["guideline"]), str(len(e["locs"]))]
         for l in e["locs"]:
@@ -116,7 +153,8 @@ def op_of(errs, ts, decode_files):
     return " ".join(f)
 
 
-SRC = "int main(void)\n{\n  int a[1];\n  a[1] = 0; /* <b> & \"q\" */\n  return 0;\n}\n// last\n"   # 7 lines
+SRC = "int main(void)\n{\n  int a[1];\n  a[1] = 0; /* <b> & \"q\" */\n  return 0;\n}\n// last\n"   # NLINES lines
+UNREADABLE = ("missing.c", "star*", "")
 
 
 def make_tree(d, errs):
@@ -124,7 +162,7 @@ def make_tree(d, errs):
     decode = []
     files = set(l["file"] for e in errs for l in e["locs"])
     for f in files:
-        if f in ("missing.c", "star*", ""):
+        if f in UNREADABLE:
             continue
         p = os.path.join(d, f)
         os.makedirs(os.path.dirname(p) or d, exist_ok=True)
@@ -179,8 +217,62 @@ class IndexParser(HTMLParser):
             self.cell += data
 
 
-def p_impl(errs, outdir, decode):
-    """every finding exactly once in the index with file, line, id, severity and message (as an HTML parser reads them)"""
+class PageParser(HTMLParser):
+    """independent reading of a per-file page: menu entries (id, line) and the messages of the annotations"""
+    def __init__(self):
+        super().__init__(convert_charrefs=True)
+        self.div = []           # stack of div ids / classes
+        self.menu = []
+        self.annots = []
+        self.a = None
+        self.span = None        # [depth, text] of the annotation span being read
+        self.in_menu = False
+
+    def handle_starttag(self, tag, attrs):
+        a = dict(attrs)
+        if tag == "div":
+            self.div.append(a.get("id") or a.get("class") or "")
+            self.in_menu = "menu" in self.div
+        elif tag == "a" and self.in_menu and "#line-" in (a.get("href") or ""):
+            self.a = ""
+        elif tag == "span":
+            if self.span is not None:
+                self.span[0] += 1
+            elif a.get("class") in ("error2", "inconclusive2"):
+                self.span = [1, ""]
+
+    def handle_endtag(self, tag):
+        if tag == "div" and self.div:
+            self.div.pop()
+            self.in_menu = "menu" in self.div
+        elif tag == "a" and self.a is not None:
+            t = self.a.strip()
+            i, _, ln = t.rpartition(" ")
+            self.menu.append((i, ln))
+            self.a = None
+        elif tag == "span" and self.span is not None:
+            self.span[0] -= 1
+            if self.span[0] == 0:
+                t = self.span[1]
+                if t.endswith(" [+]"):
+                    t = t[:-4]
+                self.annots.append(t[5:] if t.startswith("<--- ") else "?" + t)
+                self.span = None
+
+    def handle_data(self, data):
+        if self.a is not None:
+            self.a += data
+        if self.span is not None:
+            self.span[1] += data
+
+
+def first_file(e):
+    return e["locs"][0]["file"] if e["locs"] else ""
+
+
+def p_impl(errs, outdir, decode, pages):
+    """python's own reading of the property, on the generated HTML: list of (what, finding-key or None)"""
+    out = []
     p = IndexParser()
     p.feed(open(os.path.join(outdir, "index.html"), encoding="utf-8").read())
     got = []
@@ -196,32 +288,125 @@ def p_impl(errs, outdir, decode):
         c = r["cells"]
         # line, id, cwe, [severity], [classification, guideline], message, timestamp
         got.append((curfile, c[0], c[1], c[-2]))
-    want = []
+    want, want_full = [], []
     for e in errs:
-        f = e["locs"][0]["file"] if e["locs"] else ""
+        f = first_file(e)
         line = e["locs"][0]["line"] if e["locs"] else 0
         is_file = f != "" and f not in decode and not f.endswith("*")
         want.append((f, str(line) if is_file else "", e["id"], e["msg"]))
+        want_full.append((f, str(line) if e["locs"] else "", e["id"], e["msg"]))
     if sorted(got) != sorted(want):
         missing = [w for w in want if w not in got]
         extra = [g for g in got if g not in want]
-        return "index rows differ from the findings: missing=%r unexpected=%r" % (missing[:2], extra[:2])
-    # severities appear (when not a classification report)
+        out.append(("index rows differ from the findings: missing=%r unexpected=%r" % (missing[:2], extra[:2]), None))
+    elif sorted(got) != sorted(want_full):
+        lost = [w for w in want_full if w not in got]
+        out.append(("index row without the line of the finding (source undecodable or starred): %r" % (lost[:2],), "line-missing-undecodable-or-starred-source"))
+    # severities
+    sevs = sorted((r["cells"][3] if len(r["cells"]) > 5 else "") for r in p.rows if r["cls"] and r["cls"].endswith(" issue"))
+    wants = sorted((e["sev"] + (", inconcl." if e["inconclusive"] == "true" else "")) for e in errs)
     if not report_type:
-        sevs = sorted((r["cells"][3] if len(r["cells"]) > 5 else "") for r in p.rows if r["cls"] and r["cls"].endswith(" issue"))
-        wants = sorted((e["sev"] + (", inconcl." if e["inconclusive"] == "true" else "")) for e in errs)
         if sevs != wants:
-            return "severity column differs: got=%r want=%r" % (sevs[:4], wants[:4])
-    return None
+            out.append(("severity column differs: got=%r want=%r" % (sevs[:4], wants[:4]), None))
+    else:
+        html_text = open(os.path.join(outdir, "index.html"), encoding="utf-8").read()
+        table = html_text.split('class="summaryTable"', 1)[1]
+        if not all((">" + html.escape(w.split(",")[0], quote=False)) in table for w in wants if w):
+            out.append(("classification report: the rows do not show the severity of their findings (%r)" % (wants[:3],), "severity-missing-in-classification-report"))
+    # per-file pages
+    for n, f in pages.items():
+        pp = PageParser()
+        pp.feed(open(os.path.join(outdir, "%d.html" % n), encoding="utf-8").read())
+        group = [e for e in errs if first_file(e) == f]
+        want_menu, want_ann, ninloc = [], [], []
+        dup012 = set()
+        for e in group:
+            inloc = [l for l in e["locs"] if l["file"] == f]
+            ninloc.append(len(inloc))
+            for l in inloc:
+                want_menu.append((e["id"].strip(), str(l["line"])))
+                m = l["info"] if l["info"] else e["msg"]
+                vb = None if l["info"] else e["verbose"]
+                if not (1 <= l["line"] <= NLINES):
+                    continue                                # no such source line: menu entry only
+                if vb and vb != m and "\\012" in vb and e["inconclusive"] in (None, "true"):
+                    dup012.add(l["line"])
+                want_ann.append((l["line"], m, e["inconclusive"]))
+        got_menu = [(i.strip(), ln) for (i, ln) in pp.menu]
+        if sorted(got_menu) != sorted(want_menu):
+            out.append(("page %d.html (%s): menu entries %r differ from the locations of the findings in the file %r" % (n, f, sorted(got_menu)[:3], sorted(want_menu)[:3]), None))
+        elif any(k >= 2 for k in ninloc):
+            out.append(("page %d.html (%s): a finding with %d locations in the file has that many entries (menu, annotations), not one" % (n, f, max(ninloc)), "page-entry-per-location"))
+        exp = sorted(m for (ln, m, inc) in want_ann if inc in (None, "true"))
+        gota = sorted(pp.annots)
+        if gota != exp:
+            extra, missing = list(gota), []
+            for x in exp:
+                if x in extra:
+                    extra.remove(x)
+                else:
+                    missing.append(x)
+            if not missing and dup012 and all(any(ln in dup012 and m == x for (ln, m, inc) in want_ann) for x in extra):
+                out.append(("page %d.html (%s): annotation written twice - once inside the verbose text (\\012) of an earlier finding of the line" % (n, f), "page-annotation-duplicated-after-012"))
+            else:
+                out.append(("page %d.html (%s): annotations %r differ from the messages of the entries %r" % (n, f, gota[:4], exp[:4]), None))
+        if any(inc not in (None, "true") for (ln, m, inc) in want_ann):
+            out.append(("page %d.html (%s): a finding whose inconclusive attribute is not 'true' has no annotation" % (n, f), "page-annotation-missing-inconclusive-not-true"))
+        body = open(os.path.join(outdir, "%d.html" % n), encoding="utf-8").read()
+        body = body.split('<div id="content">', 1)[1] if '<div id="content">' in body else body
+        if re.search(r"<script|<b>|<i>", body):
+            # the only tags inside the content are pygments' and the annotation spans; a raw injected tag is a violation
+            out.append(("per-file page %d.html contains markup injected from a finding" % n, None))
+    return out
 
 
-def run_script(ctx, d, errs):
+HELPER = r"""
+import sys, os, io, runpy, contextlib
+script = sys.argv[1]
+for line in sys.stdin:
+    d = line.rstrip("\n")
+    if not d:
+        continue
+    os.chdir(d)
+    sys.argv = [script, "--file", "r.xml", "--report-dir", "out", "--source-dir", "."]
+    out, err, rc = io.StringIO(), io.StringIO(), 0
+    try:
+        with contextlib.redirect_stdout(out), contextlib.redirect_stderr(err):
+            runpy.run_path(script, run_name="__main__")
+    except SystemExit as e:
+        rc = e.code if isinstance(e.code, int) else (0 if e.code is None else 1)
+    except BaseException as e:
+        rc = 70
+        err.write(repr(e))
+    open(os.path.join(d, "rc.txt"), "w").write("%d\n%s" % (rc, err.getvalue()[-3000:]))
+"""
+
+
+def run_many(ctx, dirs, workers):
+    """the real script, executed by the real interpreter on every case directory; one interpreter serves several cases
+    (runpy executes the script file as __main__ each time), so that start-up and the pygments import are paid once"""
+    from concurrent.futures import ThreadPoolExecutor
+    chunks = [dirs[i::workers] for i in range(workers)]
+    def work(ch):
+        if ch:
+            core.sh([sys.executable, "-c", HELPER, SCRIPT], input="".join(x + "\n" for x in ch), timeout=1800)
+    with ThreadPoolExecutor(max_workers=workers) as ex:
+        list(ex.map(work, chunks))
+
+
+def prepare_dir(ctx, errs, k):
+    d = os.path.join(ctx.tmp, "case%d" % k)
+    os.makedirs(d, exist_ok=True)
+    decode = make_tree(d, errs)
     xmlp = os.path.join(d, "r.xml")
     open(xmlp, "w", encoding="utf-8").write(xml_of(errs))
-    ts = time.ctime(os.path.getmtime(xmlp))
-    out = os.path.join(d, "out")
-    rc, so, se = core.sh([sys.executable, SCRIPT, "--file", "r.xml", "--report-dir", "out", "--source-dir", "."], cwd=d, timeout=120)
-    return rc, so, se, ts, out
+    return d, decode, time.ctime(os.path.getmtime(xmlp))
+
+
+def run_cli(ctx, d):
+    """the script as a process of its own (command line as a user runs it)"""
+    rc, so, se = core.sh([sys.executable, SCRIPT, "--file", "r.xml", "--report-dir", "out", "--source-dir", "."], cwd=d, timeout=600)
+    open(os.path.join(d, "rc.txt"), "w").write("%d\n%s" % (rc, (se or so)[-3000:]))
 
 
 ROW_RE = re.compile(r"^         (<tr class=.*</tr>)$")
@@ -246,7 +431,12 @@ def impl_lines(outdir, errs):
     return parts
 
 
-def menus(outdir):
+ANCHOR_RE = re.compile(r'<a id="line-(\d+)" name="line-\d+"></a>')
+MARKERS = ('<span class="error2">', '<span class="inconclusive2">', '<div class="verbose expandable">')
+
+
+def pages_of(outdir):
+    """per page: menu text, and for every source line the text from the first annotation marker to the last newline"""
     res = {}
     for f in sorted(os.listdir(outdir)):
         m = re.match(r"^(\d+)\.html$", f)
@@ -254,76 +444,121 @@ def menus(outdir):
             continue
         t = open(os.path.join(outdir, f), encoding="utf-8").read()
         mm = re.search(r'<p><a href="index.html">Defects:</a> .*?</p>\n(.*?)\n    </div>\n    <div id="content">', t, re.S)
-        res[int(m.group(1))] = mm.group(1) if mm else None
+        ann = {}
+        code = t.split('<td class="code">', 1)[1].split("</pre>", 1)[0] if '<td class="code">' in t else ""
+        pieces = ANCHOR_RE.split(code)
+        for i in range(1, len(pieces) - 1, 2):
+            ln, seg = int(pieces[i]), pieces[i + 1]
+            idx = min([seg.find(mk) for mk in MARKERS if mk in seg] or [-1])
+            if idx >= 0:
+                ann[ln] = seg[idx:seg.rfind("\n") + 1]
+        res[int(m.group(1))] = dict(menu=mm.group(1) if mm else None, ann=ann, nlines=len(pieces) // 2)
     return res
 
 
-def prepare_case(ctx, errs, k):
-    """create the source tree and run the real script (thread-safe: own directory per case)"""
-    d = os.path.join(ctx.tmp, "case%d" % k)
-    os.makedirs(d, exist_ok=True)
-    decode = make_tree(d, errs)
-    return (d, decode) + run_script(ctx, d, errs)
+FINDING_KEYS = ("page-entry-per-location", "severity-missing-in-classification-report", "line-missing-undecodable-or-starred-source",
+                "page-annotation-missing-inconclusive-not-true", "page-annotation-duplicated-after-012")
 
 
-def one_case(ctx, res, drv, errs, name, k, prepared=None):
-    d, decode, rc, so, se, ts, out = prepared or prepare_case(ctx, errs, k)
+def one_case(ctx, res, drv, errs, name, k, d, decode, ts):
+    out = os.path.join(d, "out")
+    rcp = os.path.join(d, "rc.txt")
+    rct = open(rcp).read().split("\n", 1) if os.path.exists(rcp) else ["99", "the script was not run"]
+    rc, se = int(rct[0]), rct[1] if len(rct) > 1 else ""
     desc = dict(findings=[dict(id=e["id"], sev=e["sev"], msg=e["msg"], locs=[(l["file"], l["line"]) for l in e["locs"]]) for e in errs])
     if rc != 0 or not os.path.exists(os.path.join(out, "index.html")):
-        res.violation("cppcheck-htmlreport failed (rc=%s) on a valid version-2 results file: %s" % (rc, (se or so)[-300:]),
+        res.violation("cppcheck-htmlreport failed (rc=%s) on a valid version-2 results file: %s" % (rc, se[-300:]),
                       dict(errors=errs, stderr=se[-2000:]), concrete=True, key=None)
         shutil.rmtree(d, ignore_errors=True)
         return None
     impl = impl_lines(out, errs)
-    pm = menus(out)
+    pg = pages_of(out)
     op = op_of(errs, ts, decode)
     rc2, mo, me = core.run_lines(drv, [], [op])
     model = mo[0].split(" ") if mo else ["<no output>"]
     model_rows = [x for x in model if x[:2] in ("R:", "G:")]
-    model_menus = {}
+    model_menus, model_ann, page_file = {}, {}, {}
     for x in model:
         if x.startswith("M:"):
             _, no, h = x.split(":")
             model_menus[int(no)] = "" if h == "-" else bytes.fromhex(h).decode("utf-8")
+        elif x.startswith("A:"):
+            _, no, ln, h = x.split(":")
+            model_ann.setdefault(int(no), {})[int(ln)] = bytes.fromhex(h).decode("utf-8")
+    # page number -> file (dict insertion order of the first locations), python's own reading
+    order = []
+    for e in errs:
+        if first_file(e) not in order:
+            order.append(first_file(e))
+    pages = {n: order[n] for n in pg if n < len(order)}
     ok_rows = impl == model_rows
-    ok_menu = all(pm[n] == model_menus.get(n) for n in pm)
+    ok_menu = all(pg[n]["menu"] == model_menus.get(n) for n in pg)
+    ok_ann = all(pg[n]["ann"] == model_ann.get(n, {}) and pg[n]["nlines"] == NLINES for n in pg)
     hostile = any(ch in (e["id"] + e["msg"] + e["sev"] + "".join(l["file"] for l in e["locs"])) for e in errs for ch in "<>&\"'")
-    res.case(name + "|" + op, len(errs) >= 2 and hostile, desc if k % 7 == 0 else None)
+    res.case(name + "|" + op, len(errs) >= 2 and hostile, desc if k % 25 == 0 else None)
     res.count("findings:%d" % len(errs))
     res.count("hostile" if hostile else "plain")
-    if ok_rows and ok_menu:
+    # what the case exercises (evidence; run() fails closed when a class is never seen)
+    files = set(first_file(e) for e in errs)
+    for cls, present in (("source:readable(page)", bool(pg)), ("source:missing", "missing.c" in files), ("source:undecodable", "bad utf.c" in files),
+                         ("source:starred", "star*" in files), ("finding:no-location", any(not e["locs"] for e in errs)),
+                         ("finding:2+locations-in-one-file", any(sum(1 for l in e["locs"] if l["file"] == first_file(e)) >= 2 for e in errs)),
+                         ("report:classification", any(e["cls"] for e in errs)), ("finding:cwe", any(e["cwe"] for e in errs)),
+                         ("finding:inconclusive-true", any(e["inconclusive"] == "true" for e in errs)),
+                         ("finding:inconclusive-other", any(e["inconclusive"] not in (None, "true") for e in errs)),
+                         ("location:info", any(l["info"] for e in errs for l in e["locs"])),
+                         ("finding:verbose-differs", any(e["verbose"] and e["verbose"] != e["msg"] for e in errs)),
+                         ("finding:line-not-in-source", any(l["line"] == 0 or l["line"] > NLINES for e in errs for l in e["locs"])),
+                         ("findings:same-file-same-line", len(set((first_file(e), e["locs"][0]["line"]) for e in errs if e["locs"])) < sum(1 for e in errs if e["locs"])),
+                         ("page:line-with-2+annotations", any(a.count("&lt;--- ") >= 2 for n in pg for a in pg[n]["ann"].values()))):
+        if present:
+            res.count("class:" + cls)
+    if ok_rows and ok_menu and ok_ann:
         res.traces_validated += 1
-    pi = p_impl(errs, out, decode)
-    if pi:
-        res.violation("htmlreport index does not list every finding exactly once with its fields: " + pi,
-                      dict(errors=errs, detail=pi), concrete=True, key=None)
-    # per-file pages: one annotation per location inside the file, message escaped
-    for n, menu in pm.items():
-        t = open(os.path.join(out, "%d.html" % n), encoding="utf-8").read()
-        body = t.split('<div id="content">', 1)[1] if '<div id="content">' in t else t
-        if re.search(r"<script|<b>|<i>", body):
-            # the only tags inside the content are pygments' and the annotation spans; a raw injected tag is a violation
-            res.violation("per-file page %d.html contains markup injected from a finding" % n, dict(errors=errs, page=n), concrete=True, key=None)
+    for what, key in p_impl(errs, out, decode, pages):
+        res.violation("htmlreport: " + what, dict(errors=errs, detail=what), concrete=True, key=key)
     shutil.rmtree(d, ignore_errors=True)
-    return (ok_rows and ok_menu), dict(impl=impl[:3], model=model_rows[:3], menus_impl=pm, menus_model=model_menus)
+    bad_ann = {n: dict(impl=pg[n]["ann"], model=model_ann.get(n, {})) for n in pg if pg[n]["ann"] != model_ann.get(n, {})}
+    return (ok_rows and ok_menu and ok_ann), dict(impl=impl[:3], model=model_rows[:3], menus_impl={n: pg[n]["menu"] for n in pg}, menus_model=model_menus,
+                                                  annotations=bad_ann, errors=errs)
+
+
+REQUIRED_CLASSES = ["source:readable(page)", "source:missing", "source:undecodable", "source:starred", "finding:no-location",
+                    "finding:2+locations-in-one-file", "report:classification", "finding:inconclusive-true", "finding:inconclusive-other",
+                    "location:info", "finding:verbose-differs", "finding:line-not-in-source", "findings:same-file-same-line",
+                    "page:line-with-2+annotations"]
 
 
 def run(ctx, res):
+    res.assumptions = list(ASSUMPTIONS)
     core.prove(ctx, res, MODULES, THEOREMS)
     drv = ctx.driver("drv_c36")
     rng = ctx.rng
-    n = 150 if ctx.tier == "thorough" else 12
+    n = 600 if ctx.tier == "thorough" else 110
     bad = []
-    cases = load_corpus() + [gen_case(rng) for _ in range(n)]
+    corpus = load_corpus()
+    cases = corpus + [gen_case(rng) for _ in range(n)]
+    prepared = [prepare_dir(ctx, errs, k) for k, errs in enumerate(cases)]
+    t0 = time.time()
+    # the corpus cases through the command line (a process each), the generated ones through long-lived interpreters
     from concurrent.futures import ThreadPoolExecutor
-    with ThreadPoolExecutor(max_workers=8) as ex:
-        prepared = list(ex.map(lambda ke: prepare_case(ctx, ke[1], ke[0]), list(enumerate(cases))))
+    with ThreadPoolExecutor(max_workers=4) as ex:
+        fut = [ex.submit(run_cli, ctx, prepared[k][0]) for k in range(len(corpus))]
+        run_many(ctx, [prepared[k][0] for k in range(len(corpus), len(cases))], 6)
+        [f.result() for f in fut]
+    res.extra["script_runs_s"] = round(time.time() - t0, 1)
     for k, errs in enumerate(cases):
-        r = one_case(ctx, res, drv, errs, "index", k, prepared[k])
+        d, decode, ts = prepared[k]
+        r = one_case(ctx, res, drv, errs, "index", k, d, decode, ts)
         if r is not None and not r[0]:
-            bad.append((errs, r[1]))
-    res.oblig("correspondence:index-rows-and-menus", not bad, "correspondence",
-              "" if not bad else "%d of %d result files: rows/menus differ; first: %s" % (len(bad), len(cases), str(bad[0][1])[:1500]))
+            bad.append(r[1])
+    res.oblig("correspondence:index-rows-menus-annotations", not bad, "correspondence",
+              "" if not bad else "%d of %d result files: rows / menus / line annotations differ; first: %s" % (len(bad), len(cases), str({k: v for k, v in bad[0].items() if k != "errors"})[:1500]))
+    for b in bad[:3]:
+        res.violation("htmlreport output differs from the model (rows / menus / annotations)", dict(errors=b["errors"], detail=str({k: v for k, v in b.items() if k != "errors"})[:1500]), concrete=True, key=None)
+    missing = [c for c in REQUIRED_CLASSES if not res.dist.get("class:" + c)]
+    res.oblig("coverage:input-classes", not missing, "correspondence",
+              "" if not missing else "input classes never exercised in this run: %s" % missing)
     # escape function on its own (python's escape == model)
     from xml.sax.saxutils import escape
     ops, impl = [], []
@@ -339,17 +574,26 @@ def run(ctx, res):
     m = re.search(r"html_escape_table = \{\n\s*'\"': \"&quot;\",\n\s*\"'\": \"&apos;\"\n\}", src)
     res.oblig("T:html_escape_table", bool(m) and "return escape(text, html_escape_table)" in src, "translation",
               "" if m else "html_escape_table in the script no longer has the shape the model copies")
+    # the annotation templates the model copies (fail closed)
+    tm = ['HTML_ERROR = "<span class=\\"error2\\">&lt;--- %s</span>\\n"', 'HTML_INCONCLUSIVE = "<span class=\\"inconclusive2\\">&lt;--- %s</span>\\n"',
+          'HTML_EXPANDABLE_ERROR = "<div class=\\"verbose expandable\\"><span class=\\"error2\\">&lt;--- %s <span class=\\"marker\\">[+]</span></span><div class=\\"content\\">%s</div></div>\\n"',
+          'HTML_EXPANDABLE_INCONCLUSIVE = "<div class=\\"verbose expandable\\"><span class=\\"inconclusive2\\">&lt;--- %s <span class=\\"marker\\">[+]</span></span><div class=\\"content\\">%s</div></div>\\n"']
+    miss = [t for t in tm if t not in src]
+    res.oblig("T:annotation-templates", not miss, "translation", "" if not miss else "annotation template changed: %s" % miss[0][:80])
 
 
 def load_corpus():
-    import json
     p = os.path.join(core.VERIF, "corpus", "C36", "cases.json")
     return json.load(open(p)) if os.path.exists(p) else []
 
 
 def replay(ctx, res, rp):
     drv = ctx.driver("drv_c36")
-    r = one_case(ctx, res, drv, rp["errors"], "replay", 0)
-    for v in res.violations:
+    d, decode, ts = prepare_dir(ctx, rp["errors"], 0)
+    run_cli(ctx, d)
+    r = one_case(ctx, res, drv, rp["errors"], "replay", 0, d, decode, ts)
+    known = set(e["key"] for e in core.load_known() if e.get("property") == ID and e.get("kind") == "finding")
+    new = [v for v in res.violations if v.get("key") not in known]
+    for v in new:
         print("VIOLATION property=C36 replay=(replayed) " + v["what"][:300])
-    return 1 if res.violations or (r is not None and not r[0]) else 0
+    return 1 if new or r is None or not r[0] else 0
